@@ -34,7 +34,7 @@ theorem tryWrite_inv (P : Params RL H) (c : Conn RL H) (hI : Inv P c) (w : SinkS
 
 /-- the public operations of a connection -/
 inductive Op
-  | read (inp : Recv) | write (w : SinkStep) | enq (r : Response) | pop | clear
+  | read (inp : Recv) | write (w : SinkStep) | enq (r : Response) | pop | clear | setLimit (n : Nat)
 
 def applyOp (P : Params RL H) (c : Conn RL H) : Op → Conn RL H × Bool   -- Bool: the call panicked
   | .read inp => let (c', o) := tryRead P c inp; (c', match o with | .panic _ => true | _ => false)
@@ -42,6 +42,7 @@ def applyOp (P : Params RL H) (c : Conn RL H) : Op → Conn RL H × Bool   -- Bo
   | .enq r => (enqueue c r, false)
   | .pop => ((popParsed c).1, false)
   | .clear => (clearWrite c, false)
+  | .setLimit n => (setLimit c n, false)
 
 def runOps (P : Params RL H) : Conn RL H → List Op → Conn RL H × Bool
   | c, [] => (c, false)
@@ -51,8 +52,8 @@ def runOps (P : Params RL H) : Conn RL H → List Op → Conn RL H × Bool
     (c'', p || p')
 
 /-- Any sequence of public calls on a new connection — arbitrary bytes, arbitrary read results,
-    continued use after `ParseError`, `StreamReadError`, `ConnectionClosed` — never panics and
-    keeps the invariant. -/
+    continued use after `ParseError`, `StreamReadError`, `ConnectionClosed`, the payload limit changed at
+    any moment (also in the middle of a body) — never panics and keeps the invariant. -/
 theorem ops_safe (P : Params RL H) (hP : P.WF) (L : Nat) (ops : List Op) :
     Inv P (runOps P (Conn.new L) ops).1 ∧ (runOps P (Conn.new L) ops).2 = false := by
   have gen : ∀ (ops : List Op) (c : Conn RL H), Inv P c →
@@ -78,6 +79,7 @@ theorem ops_safe (P : Params RL H) (hP : P.WF) (L : Nat) (ops : List Op) :
         | enq r => exact ⟨enqueue_inv P c hI r, rfl⟩
         | pop => exact ⟨popParsed_inv P c hI, rfl⟩
         | clear => exact ⟨clearWrite_inv P c hI, rfl⟩
+        | setLimit n => exact ⟨Inv_of_parser_eq P c _ hI rfl rfl rfl rfl rfl hI.rbuf, rfl⟩
       have hrec := ih (applyOp P c op).1 hstep.1
       simp only [runOps]
       exact ⟨hrec.1, by rw [hstep.2, hrec.2]; rfl⟩
